@@ -536,6 +536,9 @@ func (nfs *Nfs) doRemove(dfh nfstypes.Nfs_fh3, name nfstypes.Filename3, isdir bo
 	if err != nfstypes.NFS3_OK {
 		return op, err
 	}
+	if !isdir && inodes[0].Kind == nfstypes.NF3DIR {
+		return op, nfstypes.NFS3ERR_ISDIR
+	}
 	if isdir && inodes[0].Kind != nfstypes.NF3DIR {
 		util.DPrintf(0, "Remove not a directory %v\n", inodes[0].Kind)
 		return op, nfstypes.NFS3ERR_INVAL
